@@ -111,4 +111,25 @@ CHECKS = {
         "quick": {"shards": 16, "budget_s": 30, "min_evals": 2000, "min_counters": {"states.eidx.truncated": 300, "states.pidx.truncated": 300, "states.sidx.truncated": 300, "states..complete": 16}},
         "thorough": {"shards": 64, "parallel": 16, "budget_s": 60, "min_evals": 15000},
     },
+    "C15": {
+        "engine": "vp-store", "level": "exploration",
+        "rule": "2-5 writer tasks append 150 transactions each (1-3 events, payloads up to 8 KB) to their own streams over 2-4 partitions / 1-2 buckets / 1-2 writer threads with 128 KiB segments (a rollover every few dozen appends); 3-8 reader tasks snapshot the shared registry of acknowledged appends BEFORE each round and then look every snapshot entry up by id, query stream version and partition sequence (never below the acknowledged value, never going backwards per reader) and scan partition and stream from the acknowledged position. In two of three cases hook H3 holds the writer thread at rollover.swapped / rollover.installed_old until every reader has started and completed a full round inside the window; one of three cases runs free. non-trivial = distinct cases (with the number of windows held and of reader rounds completed inside them)",
+        "assumptions": A_COMMON + ["'a read that starts after an acknowledgement' is established by snapshotting the registry before the read is invoked (one process, one logical clock)"],
+        "quick": {"shards": 16, "budget_s": 30, "min_evals": 50, "min_counters": {"reader_rounds_completed_inside_window": 2000, "rollover_windows_held": 500, "reads_checked": 500000}},
+        "thorough": {"shards": 32, "parallel": 16, "budget_s": 300, "min_evals": 1000, "extras": ["tsan_store"]},
+    },
+    "C16": {
+        "engine": "vp-store", "level": "exploration",
+        "rule": "8-47 tasks x 3-8 rounds race optimistic appends (read the current version, then append with Exact(v) / Empty, 1/8 deliberately stale; 1/3 two-stream transactions; 1/4 with an exact expected partition sequence) on 1-2 hot streams per partition over 1-2 buckets and 1-2 writer threads; every call is recorded with invoke/return ticks of one logical clock. Oracle: successes sorted by partition sequence are replayed into the model (every expectation must hold there, assigned numbers must match: no two successes claim the same version or sequence); real-time order per partition; a refused single-stream append is a violation if its expected version was certainly current during its whole call interval; final scans equal the replay. non-trivial = distinct races with at least one conflict refusal and >= 4 successes",
+        "assumptions": A_COMMON,
+        "quick": {"shards": 16, "budget_s": 25, "min_evals": 300, "min_counters": {"successes": 5000, "refusals": 50000}},
+        "thorough": {"shards": 32, "parallel": 16, "budget_s": 200, "min_evals": 10000, "extras": ["tsan_store"]},
+    },
+    "C19": {
+        "engine": "vp-store", "level": "exploration",
+        "rule": "per case: segment size 128 KiB/256 KiB/1 MiB, compression on (2/3) or off, a probe transaction (1-3 events; payload tiny / 0.2-4 KB / half a segment / about a segment / mixed) with incompressible, highly compressible or mixed content; its stored size is MEASURED by writing the same records through the real BucketSegmentWriter into a scratch segment (with the sequence/version numbers the store will assign); the live segment is filled exactly (end offsets from hook txn_written) so that free space sweeps estimate-48..estimate+48 and stored-48..stored+48 byte by byte plus 14 coarse points; every probe whose stored size fits an empty segment must be accepted within 3 attempts. non-trivial = distinct (case, free space) where the store's estimate and the stored size disagree about fitting (estimate<=free<stored, stored<=free<estimate, estimate exceeds the segment)",
+        "assumptions": A_COMMON + ["'never fails forever' is checked as 'accepted within three identical attempts' (after a refusal the store is back in the same state, so further attempts repeat)"],
+        "quick": {"shards": 16, "budget_s": 30, "min_evals": 2000, "min_counters": {"probes_at_exact_free_space": 1500}},
+        "thorough": {"shards": 32, "parallel": 16, "budget_s": 300, "min_evals": 50000},
+    },
 }
